@@ -8,6 +8,7 @@ import (
 	"os/exec"
 	"path/filepath"
 	"runtime"
+	"runtime/debug"
 	"sort"
 	"strconv"
 	"strings"
@@ -35,19 +36,19 @@ type Violation struct {
 }
 
 type Stats struct {
-	Episodes   int               `json:"episodes"`
-	Evals      int64             `json:"evals"`
-	Counters   map[string]int64  `json:"counters"`
-	Faults     map[string]int64  `json:"faults"`
-	Probes     map[string]int64  `json:"probes"`
-	Distinct   []uint64          `json:"distinct"`
-	Samples    []json.RawMessage `json:"samples"`
-	Violations []Violation       `json:"violations"`
-	Trouble    []string          `json:"trouble"` // harness-level problems (exit 2)
-	TranscriptSum uint64         `json:"transcript_sum"` // order-independent digest of all episode transcripts
-	distinct   map[uint64]struct{}
+	Episodes       int               `json:"episodes"`
+	Evals          int64             `json:"evals"`
+	Counters       map[string]int64  `json:"counters"`
+	Faults         map[string]int64  `json:"faults"`
+	Probes         map[string]int64  `json:"probes"`
+	Distinct       []uint64          `json:"distinct"`
+	Samples        []json.RawMessage `json:"samples"`
+	Violations     []Violation       `json:"violations"`
+	Trouble        []string          `json:"trouble"`        // harness-level problems (exit 2)
+	TranscriptSum  uint64            `json:"transcript_sum"` // order-independent digest of all episode transcripts
+	distinct       map[uint64]struct{}
 	apiEscalations []C01Spec
-	APIEsc     []C01Spec `json:"api_escalations,omitempty"`
+	APIEsc         []C01Spec `json:"api_escalations,omitempty"`
 }
 
 func newStats() *Stats {
@@ -363,12 +364,25 @@ func workerMain(def *CheckDef, tier string, w, W int, out string) int {
 	}
 	installSimulator()
 	installOrderHooks()
+	if cf, err := os.Create(out + ".crash"); err == nil {
+		debug.SetCrashOutput(cf, debug.CrashOptions{}) // fd 2 is captured: keep a copy of a fatal crash report
+	}
 	defer func() {
 		if r := recover(); r != nil {
 			diag("worker %d: harness panic outside an episode: %v\n%s", w, r, stack())
 			os.Exit(2)
 		}
 	}()
+	flush := func(st *Stats) {
+		st.Distinct = st.Distinct[:0]
+		for h := range st.distinct {
+			st.Distinct = append(st.Distinct, h)
+		}
+		st.APIEsc = st.apiEscalations
+		if b, err := json.Marshal(st); err == nil {
+			os.WriteFile(out, b, 0644)
+		}
+	}
 	seed := tierSeed(tier)
 	st := newStats()
 	n := def.Episodes[tier]
@@ -432,6 +446,7 @@ func workerMain(def *CheckDef, tier string, w, W int, out string) int {
 			vv.Spec = raw
 			vv.Episode, vv.Worker, vv.Workers, vv.BaseSeed = i, w, W, seed
 			st.Violations = append(st.Violations, vv)
+			flush(st) // keep what was found even if the code under test later kills the process
 		}
 		if len(st.Violations) >= maxViol*4 {
 			break
@@ -521,7 +536,18 @@ func parentMain(def *CheckDef, tier string) int {
 		case r := <-ch:
 			if r.err != nil {
 				fmt.Printf("worker %d failed: %v\n%s\n", r.w, r.err, tail(r.outp, 4000))
+				wf := filepath.Join(scratch, fmt.Sprintf("worker-%s-%d.json", def.ID, r.w))
+				if cb, err := os.ReadFile(wf + ".crash"); err == nil && len(cb) > 0 {
+					fmt.Printf("worker %d crash report (the code under test killed the process):\n%s\n", r.w, tail(string(cb), 1500))
+				}
 				trouble = true
+				// keep whatever the worker had found before it died
+				if b, err := os.ReadFile(wf); err == nil {
+					var st Stats
+					if json.Unmarshal(b, &st) == nil {
+						mergeStats(total, &st)
+					}
+				}
 				continue
 			}
 			if strings.TrimSpace(r.outp) != "" {
@@ -715,20 +741,20 @@ func writeEvidence(def *CheckDef, tier string, seed uint64, st *Stats, wall floa
 		perHour = float64(st.Episodes) / wall * 3600
 	}
 	cov := map[string]interface{}{
-		"evaluations":         st.Evals,
-		"distinct_nontrivial": len(st.distinct),
-		"rule":                def.Rule,
-		"samples":             samples,
-		"simulated_runs":      st.Episodes,
+		"evaluations":             st.Evals,
+		"distinct_nontrivial":     len(st.distinct),
+		"rule":                    def.Rule,
+		"samples":                 samples,
+		"simulated_runs":          st.Episodes,
 		"simulated_runs_per_hour": perHour,
-		"simulated_time":      "not applicable: spg has no clock, timer or deadline; progress is counted in steps (see step_counters)",
-		"step_counters":       st.Counters,
-		"faults_fired":        st.Faults,
-		"rare_condition_probes": st.Probes,
-		"components_real":     def.Real,
-		"components_simulated": def.Simulated,
-		"exhaustive":          false,
-		"transcript_digest":   fmt.Sprintf("%016x", st.TranscriptSum),
+		"simulated_time":          "not applicable: spg has no clock, timer or deadline; progress is counted in steps (see step_counters)",
+		"step_counters":           st.Counters,
+		"faults_fired":            st.Faults,
+		"rare_condition_probes":   st.Probes,
+		"components_real":         def.Real,
+		"components_simulated":    def.Simulated,
+		"exhaustive":              false,
+		"transcript_digest":       fmt.Sprintf("%016x", st.TranscriptSum),
 	}
 	ev := map[string]interface{}{
 		"property_id": def.ID,
